@@ -227,6 +227,14 @@ pub fn run(tier: &str, seed: u64, replay: Option<u64>) -> Report {
       } } }
       rep.seen("payload_type_families", name);
     }
+    // payloads whose Debug text and equality disagree: Terse prints only its code; Attempt's equality ignores `attempt`
+    #[derive(Clone, PartialEq, Eq)] struct Terse { code: u8, detail: u8 }
+    impl Debug for Terse { fn fmt(&self, f: &mut std::fmt::Formatter<'_>) -> std::fmt::Result { write!(f, "E{}", self.code) } }
+    #[derive(Clone, Debug)] struct Attempt { message: u8, attempt: u8 }
+    impl PartialEq for Attempt { fn eq(&self, o: &Self) -> bool { self.message == o.message } }
+    impl Eq for Attempt {}
+    over::<Terse, Terse>(&mut rep, "Result<Terse, Terse> (Debug shows less than Eq compares)", vec![Ok(Terse { code: 1, detail: 0 }), Ok(Terse { code: 1, detail: 1 }), Ok(Terse { code: 2, detail: 0 }), Err(Terse { code: 1, detail: 0 }), Err(Terse { code: 1, detail: 1 }), Err(Terse { code: 2, detail: 0 })], &alarm);
+    over::<Attempt, Attempt>(&mut rep, "Result<Attempt, Attempt> (Debug shows more than Eq compares)", vec![Ok(Attempt { message: 1, attempt: 0 }), Ok(Attempt { message: 1, attempt: 1 }), Ok(Attempt { message: 2, attempt: 0 }), Err(Attempt { message: 1, attempt: 0 }), Err(Attempt { message: 1, attempt: 1 }), Err(Attempt { message: 2, attempt: 0 })], &alarm);
     over::<(), ()>(&mut rep, "Result<(), ()>", vec![Ok(()), Err(())], &alarm);
     over::<(), i8>(&mut rep, "Result<(), i8>", vec![Ok(()), Err(0), Err(1)], &alarm);
     over::<i8, ()>(&mut rep, "Result<i8, ()>", vec![Ok(0), Ok(1), Err(())], &alarm);
@@ -264,7 +272,7 @@ pub fn run(tier: &str, seed: u64, replay: Option<u64>) -> Report {
     for p in parts { rep.merge(p); }
   }
   rep.sample(|| J::s(format!("domain = {:?}; every ordered pair (o1, o2): check(o2, stamp(o1)) for Equals/OkEquals/ErrEquals/Result/Always", dom)));
-  rep.rule = "closed domain Result<i8,i8> with 4 Ok and 4 Err payloads: ALL 64 ordered pairs x 5 checkers are enumerated (exhaustive), each (a) directly through OutputChecker::stamp/check, (b) through the object-safe proxy OutputCheckerObj, (c) inside a real top-down build and (d) a real bottom-up build where the required task's output changes from o1 to o2 (requirer must be re-executed iff the documented relation says inconsistent); plain integers for EqualsChecker/AlwaysConsistent; all ordered pairs of small domains of eleven other payload-type families (zero-sized (), unit structs, PhantomData, [u8; 0]; String; Box / Rc; Option / Vec; nested Result), directly and through the proxy; thorough adds 10^6 random pairs of Result<(String, Option<u8>), (u64, Rc<str>)>. distinct non-trivial = pairs the documented relation calls inconsistent.".into();
+  rep.rule = "closed domain Result<i8,i8> with 4 Ok and 4 Err payloads: ALL 64 ordered pairs x 5 checkers are enumerated (exhaustive), each (a) directly through OutputChecker::stamp/check, (b) through the object-safe proxy OutputCheckerObj, (c) inside a real top-down build and (d) a real bottom-up build where the required task's output changes from o1 to o2 (requirer must be re-executed iff the documented relation says inconsistent); plain integers for EqualsChecker/AlwaysConsistent; all ordered pairs of small domains of thirteen other payload-type families (payloads whose Debug text shows less / more than their equality compares; zero-sized (), unit structs, PhantomData, [u8; 0]; String; Box / Rc; Option / Vec; nested Result), directly and through the proxy; thorough adds 10^6 random pairs of Result<(String, Option<u8>), (u64, Rc<str>)>. distinct non-trivial = pairs the documented relation calls inconsistent.".into();
   rep.floor("in-build pairs ran", rep.get("pairs_in_builds") > 100 || replay.is_some());
   rep
 }
